@@ -1,1 +1,168 @@
-// c15
+//! C15 — with the CRC option on, corrupted PDUs are rejected (or decode to the original when only spare bits changed).
+//! Shapes are concrete (1-byte ids, fixed-size payloads), every field value is symbolic. The error pattern is a
+//! symbolic 24-bit mask laid over three consecutive octets starting at a CONCRETE octet i >= 4 whose set bits span at
+//! most 16 bit positions: this contains every single-bit flip, every pair of flips at distance < 16 and every burst
+//! of length <= 16 that starts in octet i. One harness per PDU kind and start octet.
+//! Outside the claim: PDUs with LV/TLV payloads (Metadata, Finished, NAK lists) where a corrupted length octet makes
+//! buffer lengths symbolic; identifiers wider than 1 byte; odd-weight patterns wider than 16 bits.
+use crate::c05::SEq;
+use crate::gen;
+use crate::stubs::*;
+use cfdp_core::pdu::*;
+use std::mem::forget;
+
+fn header1(t: PDUType, len: u16) -> PDUHeader {
+    PDUHeader {
+        version: gen::u3(),
+        pdu_type: t,
+        direction: gen::direction(),
+        transmission_mode: gen::mode(),
+        crc_flag: CRCFlag::Present,
+        large_file_flag: FileSizeFlag::Small,
+        pdu_data_field_length: len,
+        segmentation_control: gen::seg_ctrl(),
+        segment_metadata_flag: SegmentedData::NotPresent,
+        source_entity_id: VariableID::U8(kani::any()),
+        transaction_sequence_number: VariableID::U8(kani::any()),
+        destination_entity_id: VariableID::U8(kani::any()),
+    }
+}
+fn pdu_of(kind: u8) -> PDU {
+    let payload = match kind {
+        0 => PDUPayload::FileData(FileDataPDU::Unsegmented(UnsegmentedFileData { offset: gen::fsv(FileSizeFlag::Small), file_data: gen::bytes(2) })),
+        1 => PDUPayload::Directive(Operations::Ack(PositiveAcknowledgePDU {
+            directive: PDUDirective::EoF,
+            directive_subtype_code: ACKSubDirective::Other,
+            condition: gen::condition(),
+            transaction_status: gen::tx_status(),
+        })),
+        2 => PDUPayload::Directive(Operations::EoF(EndOfFile { condition: Condition::NoError, checksum: kani::any(), file_size: gen::fsv(FileSizeFlag::Small), fault_location: None })),
+        3 => PDUPayload::Directive(Operations::KeepAlive(KeepAlivePDU { progress: gen::fsv(FileSizeFlag::Small) })),
+        _ => PDUPayload::Directive(Operations::Prompt(PromptPDU { nak_or_keep_alive: gen::nak_or_ka() })),
+    };
+    let t = if kind == 0 { PDUType::FileData } else { PDUType::FileDirective };
+    let len = payload.encoded_len(FileSizeFlag::Small);
+    PDU { header: header1(t, len), payload }
+}
+/// 24-bit error pattern whose set bits span at most 16 positions and whose first octet is hit
+fn pattern() -> [u8; 3] {
+    let m: u32 = kani::any();
+    kani::assume(m != 0 && m < (1 << 24));
+    kani::assume(m >> 16 != 0); // starts in the first of the three octets
+    // span <= 16: after shifting out leading zero bits of the top octet, nothing below bit (24-16-s)
+    let top = (m >> 16) as u8;
+    let s = top.leading_zeros(); // 0..7 : first set bit is at position s of the window
+    let low_allowed = 24 - 16 - s; // bits below this index must be clear
+    kani::assume(m & ((1u32 << low_allowed) - 1) == 0);
+    [(m >> 16) as u8, (m >> 8) as u8, m as u8]
+}
+/// decode(encode(p) ^ e) is an error or the original PDU
+fn corrupt_at<const L: usize>(kind: u8, i: usize, skip_directive_octet: bool) {
+    let p = pdu_of(kind);
+    let bytes = p.clone().encode();
+    assert!(bytes.len() == L, "concrete shape");
+    let mut buf = [0u8; L];
+    buf.copy_from_slice(&bytes);
+    let e = pattern();
+    let mut k = 0;
+    while k < 3 {
+        if i + k < L {
+            buf[i + k] ^= e[k];
+        } else {
+            kani::assume(e[k] == 0);
+        }
+        k += 1;
+    }
+    if skip_directive_octet {
+        // the directive octet (index 7) is handled by the *_directive harnesses with concrete resulting codes
+        kani::assume(buf[7] == bytes[7]);
+    }
+    let r = PDU::decode(&mut &buf[..]);
+    let bad = match &r {
+        Ok(q) => !q.seq(&p),
+        Err(_) => false,
+    };
+    kani::cover!(r.is_err(), "rejected");
+    forget(r);
+    assert!(!bad, "a corrupted PDU is never accepted as a different PDU");
+}
+fn unaltered<const L: usize>(kind: u8) {
+    let p = pdu_of(kind);
+    let bytes = p.clone().encode();
+    assert!(bytes.len() == L);
+    let r = PDU::decode(&mut &bytes[..]);
+    let ok = matches!(&r, Ok(q) if q.seq(&p));
+    forget(r);
+    assert!(ok, "an unaltered PDU is always accepted");
+}
+
+macro_rules! c15 {
+    ($name:ident, $l:expr, $kind:expr, $i:expr, $skip:expr) => {
+        #[kani::proof]
+        #[kani::unwind(24)]
+        #[kani::stub(std::fmt::format, fmt_stub)]
+        #[kani::stub(<cfdp_core::pdu::MetadataTLVFieldCode as std::fmt::Display>::fmt, tlv_code_display_stub)]
+        fn $name() {
+            corrupt_at::<$l>($kind, $i, $skip);
+        }
+    };
+}
+// ------------------------------------------------ file-data PDU: 4 + 3 ids + 4 offset + 2 data + 2 CRC = 15 octets
+//# funcs=PDU::encode,PDU::decode,PDUHeader::decode,FileDataPDU::decode,crc16_ibm_3740; bound=file-data PDU of 15 octets (fields symbolic), pattern starts in octet 4; stubs=S3
+c15!(c15_q_filedata_o04, 15, 0, 4, false);
+//# funcs=PDU::encode,PDU::decode,crc16_ibm_3740; bound=file-data PDU, pattern starts in octet 5; stubs=S3
+c15!(c15_q_filedata_o05, 15, 0, 5, false);
+//# funcs=PDU::encode,PDU::decode,crc16_ibm_3740; bound=file-data PDU, pattern starts in octet 6; stubs=S3
+c15!(c15_q_filedata_o06, 15, 0, 6, false);
+//# funcs=PDU::encode,PDU::decode,crc16_ibm_3740; bound=file-data PDU, pattern starts in octet 7; stubs=S3
+c15!(c15_q_filedata_o07, 15, 0, 7, false);
+//# funcs=PDU::encode,PDU::decode,crc16_ibm_3740; bound=file-data PDU, pattern starts in octet 8; stubs=S3
+c15!(c15_q_filedata_o08, 15, 0, 8, false);
+//# funcs=PDU::encode,PDU::decode,crc16_ibm_3740; bound=file-data PDU, pattern starts in octet 9; stubs=S3
+c15!(c15_q_filedata_o09, 15, 0, 9, false);
+//# funcs=PDU::encode,PDU::decode,crc16_ibm_3740; bound=file-data PDU, pattern starts in octet 10; stubs=S3
+c15!(c15_q_filedata_o10, 15, 0, 10, false);
+//# funcs=PDU::encode,PDU::decode,crc16_ibm_3740; bound=file-data PDU, pattern starts in octet 11; stubs=S3
+c15!(c15_q_filedata_o11, 15, 0, 11, false);
+//# funcs=PDU::encode,PDU::decode,crc16_ibm_3740; bound=file-data PDU, pattern starts in octet 12; stubs=S3
+c15!(c15_q_filedata_o12, 15, 0, 12, false);
+//# funcs=PDU::encode,PDU::decode,crc16_ibm_3740; bound=file-data PDU, pattern starts in octet 13 (CRC); stubs=S3
+c15!(c15_q_filedata_o13, 15, 0, 13, false);
+//# funcs=PDU::encode,PDU::decode,crc16_ibm_3740; bound=file-data PDU, pattern starts in octet 14 (CRC); stubs=S3
+c15!(c15_q_filedata_o14, 15, 0, 14, false);
+
+// ------------------------------------------------ ACK PDU: 4 + 3 ids + 1 directive + 2 + 2 CRC = 12 octets
+//# funcs=PDU::decode,Operations::decode,PositiveAcknowledgePDU::decode,crc16_ibm_3740; bound=ACK PDU of 12 octets, pattern starts in octet 4 (directive octet unchanged); stubs=S3
+c15!(c15_q_ack_o04, 12, 1, 4, true);
+//# funcs=PDU::decode,PositiveAcknowledgePDU::decode,crc16_ibm_3740; bound=ACK PDU, pattern starts in octet 8; stubs=S3
+c15!(c15_q_ack_o08, 12, 1, 8, false);
+//# funcs=PDU::decode,PositiveAcknowledgePDU::decode,crc16_ibm_3740; bound=ACK PDU, pattern starts in octet 9; stubs=S3
+c15!(c15_q_ack_o09, 12, 1, 9, false);
+//# funcs=PDU::decode,PositiveAcknowledgePDU::decode,crc16_ibm_3740; bound=ACK PDU, pattern starts in octet 10 (CRC); stubs=S3
+c15!(c15_q_ack_o10, 12, 1, 10, false);
+//# funcs=PDU::decode,crc16_ibm_3740; bound=ACK PDU, pattern starts in octet 5 / 6 (directive octet unchanged); stubs=S3
+c15!(c15_t_ack_o05, 12, 1, 5, true);
+c15!(c15_t_ack_o06, 12, 1, 6, true);
+c15!(c15_t_ack_o11, 12, 1, 11, false);
+
+//# funcs=PDU::encode,PDU::decode; bound=unaltered file-data, ACK, EOF, KeepAlive, Prompt PDUs with CRC (fields symbolic) are accepted; stubs=S3
+#[kani::proof]
+#[kani::unwind(24)]
+#[kani::stub(std::fmt::format, fmt_stub)]
+#[kani::stub(<cfdp_core::pdu::MetadataTLVFieldCode as std::fmt::Display>::fmt, tlv_code_display_stub)]
+fn c15_q_unaltered_accepted() {
+    unaltered::<15>(0);
+    unaltered::<12>(1);
+    unaltered::<19>(2);
+    unaltered::<14>(3);
+    unaltered::<11>(4);
+    kani::cover!(true, "end");
+}
+
+// ------------------------------------------------ EOF / KeepAlive / Prompt PDUs (thorough tier)
+c15!(c15_t_eof_o08, 19, 2, 8, false);
+c15!(c15_t_eof_o12, 19, 2, 12, false);
+c15!(c15_t_eof_o16, 19, 2, 16, false);
+c15!(c15_t_keepalive_o08, 14, 3, 8, false);
+c15!(c15_t_keepalive_o11, 14, 3, 11, false);
+c15!(c15_t_prompt_o08, 11, 4, 8, false);
